@@ -329,6 +329,10 @@ static int cb_valid2(cfg_t *cfg, cfg_opt_t *opt, void *value)
 	case 'F':
 		fprintf(obs, " f%016lx\n", (unsigned long)dbits(*(double *)value));
 		break;
+	case 'B':
+		/* cfg_setnbool() hands the validator a pointer to the boolean (fix F54) */
+		fprintf(obs, " i%d\n", *(cfg_bool_t *)value ? 1 : 0);
+		break;
 	default:
 		fputs(" s", obs);
 		puthex((const char *)value);
